@@ -190,6 +190,10 @@ type runner struct {
 	stored []int
 	avail  []outRef // confirmed unspent outputs, by the harness's own bookkeeping
 	ckTime uint64   // timestamp of the last epoch-boundary block at or below the tip (own bookkeeping)
+	// scripted gas kinds: number of heavy transactions that fit into a block, padding of the tuned transaction
+	heavyK   int
+	tunedPad int
+	tunedOK  bool
 }
 
 func (x *runner) confirm(tx *types.Tx, h uint64, coinbase bool) {
@@ -250,12 +254,76 @@ type pending struct {
 }
 
 // burner: OP_1 followed by n OP_SHA3 - anyone can spend it, at the price of ~64 gas per instruction
-func burner(n int) []byte {
+func burner(n int) []byte { return burner2(n, 0) }
+
+// burner2: as burner, followed by q OP_NOP (1 gas each; with the 2 hex digits of storage: 3 per NOP)
+func burner2(n, q int) []byte {
 	p := []byte{0x51}
 	for i := 0; i < n; i++ {
 		p = append(p, 0xaa)
 	}
+	for i := 0; i < q; i++ {
+		p = append(p, 0x61)
+	}
 	return p
+}
+
+const heavyN = 4300
+
+// padProg: an anyone-can-spend program of 1+p bytes (2 storage gas per byte for the transaction that creates it)
+func padProg(p int) []byte {
+	pr := []byte{0x51}
+	for i := 0; i < p; i++ {
+		pr = append(pr, 0x61)
+	}
+	return pr
+}
+
+func heavyTx(in cl.Out) *types.Tx { return cl.NewTx([]cl.Out{in}, []cl.OutSpec{{Amount: 1000000}}, 0) }
+func tunedTx(in cl.Out, pad int) *types.Tx {
+	return cl.NewTx([]cl.Out{in}, []cl.OutSpec{{Amount: 1000000, Program: padProg(pad)}}, 0)
+}
+
+func (x *runner) gasOf(tx *types.Tx) int64 {
+	gs, err := validation.ValidateTx(tx.Tx, &bc.Block{BlockHeader: &bc.BlockHeader{Version: 1, Height: 1}}, x.n.Chain.ProgramConverter)
+	if err != nil {
+		return -1
+	}
+	return gs.GasUsed
+}
+
+// tune finds a burner program (m SHA3, q NOP) and an output padding p such that the transaction spending an
+// output of amount each under that program uses exactly target gas (measured with the real validation.ValidateTx).
+func (x *runner) tune(src cl.Out, each uint64, target int64) (m, q, p int, ok bool) {
+	measure := func(m, q, p int) int64 {
+		parent := cl.NewTx([]cl.Out{src}, []cl.OutSpec{{Amount: each, Program: burner2(m, q)}}, 0)
+		return x.gasOf(tunedTx(cl.Out{Tx: parent, Pos: 0}, p))
+	}
+	for m = int(target/64) + 4; m > 0; m-- {
+		g0 := measure(m, 0, 0)
+		if g0 < 0 || g0 > target {
+			continue
+		}
+		diff := target - g0
+		if diff > 400 {
+			return 0, 0, 0, false
+		}
+		q = 0
+		if diff%2 == 1 {
+			if diff < 3 {
+				continue
+			}
+			q, diff = 1, diff-3
+		}
+		p = int(diff / 2)
+		if p > 100 {
+			continue
+		}
+		if measure(m, q, p) == target {
+			return m, q, p, true
+		}
+	}
+	return 0, 0, 0, false
 }
 
 // genPool plans the submissions of one round (in submission order).
@@ -326,37 +394,126 @@ func (x *runner) genPool(kind string, round int, best uint64) []pending {
 			add(split(in, 1, 0, cf), "chain", []cl.Out{in})
 		}
 		return subs
-	case "gas":
+	case "gas", "gas-exact0", "gas-exact-1", "gas-exact+1", "gas-skip":
+		const each, ffee, small = 62000000, 60000000, 12000000
+		isHeavy := func(o outRef) bool { return len(o.out.Tx.Outputs[o.out.Pos].ControlProgram) == heavyN+1 }
+		isTuned := func(o outRef) bool {
+			l := len(o.out.Tx.Outputs[o.out.Pos].ControlProgram)
+			return l > 100 && l != heavyN+1
+		}
 		if round == 0 {
 			// funding: two transactions (serialized size is counted in hex digits: 22 burner outputs of
-			// 4.3 KB are ~190k storage gas), each turning two mature reward outputs into 22 burner outputs of 62M
+			// 4.3 KB are ~190k storage gas), each turning two mature reward outputs into 22 burner outputs of 62M;
+			// the second one also makes 16 small outputs, and (gas-exact*) its first burner is the tuned one
 			var rich []cl.Out
 			for _, o := range x.avail {
 				if matureRich(o) {
 					rich = append(rich, o.out)
 				}
 			}
-			const each, ffee = 62000000, 60000000
-			for lo := 0; lo+2 <= len(rich) && lo < 4; lo += 2 {
-				ins := rich[lo : lo+2]
+			if len(rich) < 4 {
+				break
+			}
+			dummy := cl.NewTx([]cl.Out{rich[0]}, []cl.OutSpec{{Amount: each, Program: burner(heavyN)}}, 0)
+			gh := x.gasOf(heavyTx(cl.Out{Tx: dummy, Pos: 0}))
+			if gh <= 0 {
+				break
+			}
+			x.heavyK = int(int64(consensus.MaxBlockGas) / gh)
+			tuned := burner(heavyN)
+			if strings.HasPrefix(kind, "gas-exact") {
+				delta := map[string]int64{"gas-exact0": 0, "gas-exact-1": -1, "gas-exact+1": 1}[kind]
+				target := int64(consensus.MaxBlockGas) - int64(x.heavyK)*gh + delta
+				if m, q, p, ok := x.tune(rich[0], each, target); ok {
+					tuned, x.tunedPad, x.tunedOK = burner2(m, q), p, true
+				}
+			}
+			for f := 0; f < 2; f++ {
+				ins := rich[2*f : 2*f+2]
 				sum := ins[0].Amount() + ins[1].Amount()
 				k := 22
-				if sum < ffee+uint64(k)*each+1000 {
+				need := ffee + uint64(k)*each + 1000
+				if f == 1 {
+					need += 16 * small
+				}
+				if sum < need {
 					continue
 				}
 				var specs []cl.OutSpec
 				for i := 0; i < k; i++ {
-					specs = append(specs, cl.OutSpec{Amount: each, Program: burner(4300)})
+					prog := burner(heavyN)
+					if f == 1 && i == 0 {
+						prog = tuned
+					}
+					specs = append(specs, cl.OutSpec{Amount: each, Program: prog})
 				}
-				specs = append(specs, cl.OutSpec{Amount: sum - ffee - uint64(k)*each})
+				rest := sum - ffee - uint64(k)*each
+				if f == 1 {
+					for i := 0; i < 16; i++ {
+						specs = append(specs, cl.OutSpec{Amount: small})
+					}
+					rest -= 16 * small
+				}
+				specs = append(specs, cl.OutSpec{Amount: rest})
 				add(cl.NewTx(ins, specs, 0), "fund-burners", ins)
 			}
 			return subs
 		}
-		// spend every confirmed burner output: ~290k gas each
+		var heavy, smalls []outRef
+		var tunedOut *outRef
+		for i, o := range x.avail {
+			switch {
+			case isHeavy(o):
+				heavy = append(heavy, o)
+			case isTuned(o):
+				tunedOut = &x.avail[i]
+			case o.kind == 0 && o.out.Amount() == small:
+				smalls = append(smalls, o)
+			}
+		}
+		filler := func(kind string) {
+			if len(smalls) > 0 {
+				o := smalls[0]
+				smalls = smalls[1:]
+				add(split(o.out, 1, 0, fee), kind, []cl.Out{o.out})
+			}
+		}
+		if round == 1 && strings.HasPrefix(kind, "gas-exact") && tunedOut != nil && x.tunedOK && len(heavy) >= x.heavyK {
+			// heavyK heavy transactions, then the one tuned so that the sum is MaxBlockGas + delta, then small ones
+			for _, o := range heavy[:x.heavyK] {
+				add(heavyTx(o.out), "burn", []cl.Out{o.out})
+			}
+			add(tunedTx(tunedOut.out, x.tunedPad), "tuned", []cl.Out{tunedOut.out})
+			for i := 0; i < 3; i++ {
+				filler("behind-tuned")
+			}
+			return subs
+		}
+		if round == 1 && kind == "gas-skip" && len(heavy) > x.heavyK && x.heavyK+1 < 48 {
+			// heavyK heavy transactions exhaust the budget; the next heavy one (the parent) does not fit and ends its
+			// batch; fillers up to index 47; the parent's child opens the next batch of 16
+			for _, o := range heavy[:x.heavyK] {
+				add(heavyTx(o.out), "burn", []cl.Out{o.out})
+			}
+			po := heavy[x.heavyK]
+			parent := cl.NewTx([]cl.Out{po.out}, []cl.OutSpec{{Amount: 1000000}, {Amount: 2000000}}, 0)
+			add(parent, "skip-parent", []cl.Out{po.out})
+			for len(subs) < 48 {
+				before := len(subs)
+				filler("skip-filler")
+				if len(subs) == before {
+					break
+				}
+			}
+			add(cl.NewTx([]cl.Out{{Tx: parent, Pos: 0}}, []cl.OutSpec{{Amount: 500000}}, 0), "skip-child", []cl.Out{{Tx: parent, Pos: 0}})
+			filler("behind-child")
+			filler("behind-child")
+			return subs
+		}
+		// spend every confirmed burner output: ~284k gas each
 		for _, o := range x.avail {
-			if len(o.out.Tx.Outputs[o.out.Pos].ControlProgram) > 100 && !used[o.out.ID()] {
-				add(cl.NewTx([]cl.Out{o.out}, []cl.OutSpec{{Amount: 1000000}}, 0), "burn", []cl.Out{o.out})
+			if (isHeavy(o) || isTuned(o)) && !used[o.out.ID()] {
+				add(heavyTx(o.out), "burn", []cl.Out{o.out})
 			}
 		}
 		// and a few ordinary ones behind them
@@ -547,6 +704,9 @@ func (x *runner) round(kind string, idx int) (*Round, error) {
 	} else if p < 12 {
 		mode = 2 // too early
 	}
+	if kind != "random" {
+		mode = 0 // scripted kinds are always judged by the oracle
+	}
 	var ts uint64
 	for skip := 0; skip < 12; skip++ {
 		t, who := x.w.ProposerSlot(parent, skip)
@@ -570,7 +730,7 @@ func (x *runner) round(kind string, idx int) (*Round, error) {
 
 	// ---- the real proposer
 	var block *types.Block
-	rd.StopFirst = kind != "gas" && x.r.Chance(15)
+	rd.StopFirst = !strings.HasPrefix(kind, "gas") && x.r.Chance(15)
 	if rd.StopFirst {
 		warn := make(chan time.Time, 1)
 		warn <- time.Now()
@@ -708,7 +868,7 @@ func runCase(w *cl.World, c *Case, base string, local int) (*Result, error) {
 	trunkLen := 16 + r.Intn(8)
 	rounds := 2 + r.Intn(3)
 	switch c.Kind {
-	case "gas":
+	case "gas", "gas-exact0", "gas-exact-1", "gas-exact+1", "gas-skip":
 		trunkLen, rounds = 28+r.Intn(2), 3
 	case "many":
 		trunkLen, rounds = 16+r.Intn(4), 2
@@ -920,13 +1080,11 @@ func runAll(cases []*Case) (map[int]*Result, error) {
 	res := map[int]*Result{}
 	var mu sync.Mutex
 	var chunks [][]*Case
-	per := 8
-	for lo := 0; lo < len(cases); lo += per {
-		hi := lo + per
-		if hi > len(cases) {
-			hi = len(cases)
-		}
-		chunks = append(chunks, cases[lo:hi])
+	// round-robin, so that the expensive scripted cases (listed first) land in different children
+	nch := (len(cases) + 7) / 8
+	chunks = make([][]*Case, nch)
+	for i, cs := range cases {
+		chunks[i%nch] = append(chunks[i%nch], cs)
 	}
 	ch := make(chan int)
 	errs := make(chan error, len(chunks)+1)
@@ -1046,8 +1204,12 @@ func runC38(c *Ctx) error {
 	add := func(kind string) {
 		cases = append(cases, &Case{ID: len(cases), Seed: c.Rng.Next(), Kind: kind})
 	}
-	for i := 0; i < c.N(2, 5); i++ {
+	for i := 0; i < c.N(1, 3); i++ {
 		add("gas")
+		add("gas-exact0")
+		add("gas-exact-1")
+		add("gas-exact+1")
+		add("gas-skip")
 	}
 	for i := 0; i < c.N(3, 10); i++ {
 		add("many")
@@ -1152,6 +1314,15 @@ func runC38(c *Ctx) error {
 			}
 			if rd.GasSum > 9000000 {
 				c.Stats.Count("block_gas_over_9M")
+			}
+			switch rd.GasSum {
+			case int64(consensus.MaxBlockGas):
+				c.Stats.Count("block_gas_exactly_MaxBlockGas")
+			case int64(consensus.MaxBlockGas) - 1:
+				c.Stats.Count("block_gas_MaxBlockGas_minus_1")
+			}
+			if strings.HasPrefix(cs.Kind, "gas") && ri == 1 {
+				c.Stats.Count(fmt.Sprintf("scripted_%s_round1_block_gas_%d_txs_%d_err_%d", cs.Kind, rd.GasSum, len(rd.BlockTxs)-1, rd.Err))
 			}
 			inBlock := map[int]bool{}
 			for _, t := range rd.BlockTxs {
